@@ -206,6 +206,10 @@ type hWorld struct {
 
 	Funcs []*Func // built functions, index = spec ID
 
+	// Mode: template mode bits (8: symbolic complete earlier call on the same target,
+	// 16: all options are construction defaults)
+	Mode int
+
 	// provFinding: classification (known-finding id) attached to provenance violations
 	provFinding string
 
